@@ -63,6 +63,9 @@ def tla_cfg(sc, status_texts=None):
         tgt.pop(k, None)
     drv = {"kind": sc["driver"]["kind"], "size": sc["driver"].get("size", 4000), "extended": 1,
            "route": sc["driver"].get("route", [])}
+    if sc["driver"].get("host"):
+        drv["host"] = cps(sc["driver"]["host"])
+        drv["port"] = sc["driver"].get("port", 44818)
     cfg = {"k": "cfg", "target": tgt, "driver": drv, "has_project": 1 if sc.get("project") else 0}
     cfg["status_texts"] = status_texts or []
     from pycomm3.cip import EXTERNAL_ACCESS
